@@ -62,6 +62,9 @@ class C07(Check):
                   "(one fresh process each) and comparing accepted/'Dependency cycle' with the model; the same specification predicates "
                   "(fixed-point equation, live dependency set, cycle => rejected) are evaluated on the implementation's own observations")
     level_note = ("Trusted: Lean kernel (+ propext, Classical.choice, Quot.sound), the model's correspondence being sampled, harness/driver. "
+                  "Compared observables are the denotation the property names (reachability per aspect, live dependencies per checkable, live dependencies "
+                  "grouped by redundancy group, accepted/'Dependency cycle'); group objects, keys, totals and registry size are statistics (repr_agree/repr_differ). "
+                  "Negative controls NC1-NC6 (see NEGATIVE_CONTROLS) pass; the harness uses public API only. "
                   "Acyclicity is expressed by a ranking certificate; a ranking excludes every cycle (proved) and exists whenever peeling empties the graph (proved). "
                   "The registry (Register/Unregister/AddDependency/RemoveDependency/PushDependencyGroupsToRegistry) is modelled and proved equal to a "
                   "fresh load after every runtime sequence (registry_refines_set, runtime_equals_fresh_load); a group pointer is represented by the "
